@@ -64,6 +64,13 @@ CASES = [
     ("22 near miss: wrong length", "def f(s):\n    if s[:4] != 'gauss':\n        raise ValueError(s)\n", "def f(s):\n    if not s.startswith('gauss'):\n        raise ValueError(s)\n", False),
     ("23 loop-carried position", "def f(t):\n    n = 0\n    p = t.find('{')\n    while p >= 0:\n        t = t[p + 1:]\n        n += 1\n        p = t.find('{')\n    return n\n",
      "def f(t):\n    n = 0\n    while t.find('{') >= 0:\n        p = t.find('{')\n        t = t[p + 1:]\n        n += 1\n    return n\n", True),
+    ("25 removeprefix after the prefix test", "def f(s):\n    if not s.startswith('gauss'):\n        raise ValueError(s)\n    return s.removeprefix('gauss')\n",
+     "def f(s):\n    if not s.startswith('gauss'):\n        raise ValueError(s)\n    return s[len('gauss'):]\n", True),
+    ("25 near miss: no prefix test", "def f(s):\n    return s.removeprefix('gauss')\n", "def f(s):\n    return s[len('gauss'):]\n", False),
+    ("4 numbered format fields", "def f(a, b):\n    return '|x({0}, {1})|'.format(a, b)\n", "def f(a, b):\n    return f'|x({a}, {b})|'\n", True),
+    ("4 near miss: a format spec", "def f(a, b):\n    return '|x({0:.2f}, {1})|'.format(a, b)\n", "def f(a, b):\n    return f'|x({a}, {b})|'\n", False),
+    ("24 parallel assignment", "def f(s):\n    a, b = s.x, s.y\n    return a + b\n", "def f(s):\n    a = s.x\n    b = s.y\n    return a + b\n", True),
+    ("24 near miss: a swap", "def f(a, b):\n    a, b = b, a\n    return a - b\n", "def f(a, b):\n    a = b\n    b = a\n    return a - b\n", False),
     ("23 near miss: continue skips the update", "def f(t):\n    n = 0\n    p = t.find('{')\n    while p >= 0:\n        t = t[p + 1:]\n        if n > 3:\n            continue\n        n += 1\n        p = t.find('{')\n    return n\n",
      "def f(t):\n    n = 0\n    while t.find('{') >= 0:\n        p = t.find('{')\n        t = t[p + 1:]\n        if n > 3:\n            continue\n        n += 1\n    return n\n", False),
 ]
